@@ -40,6 +40,7 @@ def unmap_rules(fb, chk):
     owners = [b for b in fb.bodies(common.SHM) if b.name == 'drop' and (b.impl_trait or '').endswith('Drop') and b.impl_self and
               common.reaches_call(fb, b, is_unmap)]
     n_ob = 0
+    n_failed = [0]
     for d in owners:
         chk.saw(d)
         slots = None
@@ -77,6 +78,23 @@ def unmap_rules(fb, chk):
             side_w = ctor.impl_self.endswith('ShmWriter')
             eng, qs = common.run_unrolled(fb, ctor, inline_depth=8, no_inline=(is_reader_new if side_w else None))
             for q in qs:
+                # no owner of a mapping exists on a path where mmap failed: one built from the raw result before the
+                # MAP_FAILED test is dropped on the error exit, and its Drop hands MAP_FAILED to munmap (EINVAL; here an
+                # assertion failure, i.e. a crash instead of the system-call error)
+                from .open_model import name_atom, truth_of
+                failed_map = False
+                for term, op, val, _ in q.conds:
+                    a_ = name_atom(term, 16, 72, None, q.effects)
+                    t_ = truth_of(op, val)
+                    if a_ is not None and t_ is not None and a_[0] == 'mmap==MAP_FAILED' and t_ != a_[1]:
+                        failed_map = True
+                if failed_map:
+                    for ef in q.effects:
+                        if ef['kind'] == 'drop' and ef.get('ty', '').split('<')[0] == d.impl_self.split('<')[0]:
+                            n_failed[0] += 1
+                            chk.ob('C16.V6', 'unmap:%s:no-owner-of-a-failed-mapping' % d.impl_self.split('::')[-1], False, ef['site'][2],
+                                   'on the path where mmap fails a %s built from its result is dropped: munmap(MAP_FAILED, ..) in its '
+                                   'Drop (a crash where the system-call error is documented)' % d.impl_self.split('::')[-1])
                 if not (q.kind == 'return' and q.value[0] == 'agg' and q.value[2] == 'Ok'):
                     continue
                 for g in _find_aggs(q.value, d.impl_self, []):
@@ -143,6 +161,10 @@ def run(ctx, chk):
         where = p.where[2]
         if row['unknown']:
             chk.ob('C16.V1', 'open:unclassified-atom', False, where, 'open path branches on an unrecognised condition: %s' % row['unknown'][:2])
+        if row.get('signed_short'):
+            chk.ob('C16.V1', 'open:failed-read-is-not-a-short-read', False, where,
+                   'the short-read exit (%s) is taken on the signed return value of read before its sign is tested (%s): a failed '
+                   'read (-1) is reported as a short file, not as the system-call error with its errno' % (row['result'], row['signed_short'][0]))
         failing = [a for a, passed in row['atoms'] if not passed]
         if row['result'] == ('Ok',):
             ok_rows.append(row)
